@@ -6,6 +6,9 @@ package main
 //	work_do_spawned n       the bound of the loop in Work.Do whose body is `go w.runner()`
 //	work_do_inline_runners  number of direct `w.runner()` calls in Work.Do outside that loop
 //	work_running_is_n       Work.Do assigns `w.running = n`
+//	work_add_signals_when_waiting   Work.Add has exactly one wait.Signal(), guarded by exactly `if w.waiting > 0`
+//	                        inside the branch that queues a new item (one Signal per queued item)
+//	cache_do_deferred       number of defer statements in Cache.Do (0: when f does not return, nothing unlocks the entry)
 //	cache_done_value        LIT in atomic.StoreUint32(&e.done, LIT)           (Cache.Do)
 //	cache_done_test         LIT in atomic.LoadUint32(&e.done) == LIT          (Cache.Do x2, Cache.Get x1)
 
@@ -130,7 +133,69 @@ func init() {
 		fmt.Fprintf(&g.buf, "(* par.Work.Do: direct calls of %s.runner() on Do's own goroutine *)\nDefinition work_do_inline_runners : nat := %d.\n\n", recv, inline)
 		fmt.Fprintf(&g.buf, "(* par.Work.Do: %s.running = %s *)\nDefinition work_running_is_n : bool := true.\n\n", recv, nName)
 
+		// ---- Work.Add: one Signal per newly queued item while somebody is waiting
+		if add := g.funcDecl("par", "Work.Add"); add == nil || add.Body == nil {
+			g.fail("par: Work.Add not found")
+		} else {
+			arecv := ""
+			if len(add.Recv.List[0].Names) == 1 {
+				arecv = add.Recv.List[0].Names[0].Name
+			}
+			isSignal := func(st ast.Stmt) bool {
+				es, ok := st.(*ast.ExprStmt)
+				if !ok {
+					return false
+				}
+				c, ok := es.X.(*ast.CallExpr)
+				if !ok {
+					return false
+				}
+				s, ok := c.Fun.(*ast.SelectorExpr)
+				return ok && s.Sel.Name == "Signal"
+			}
+			signals, guarded := 0, 0
+			ast.Inspect(add.Body, func(nd ast.Node) bool {
+				switch x := nd.(type) {
+				case *ast.ExprStmt:
+					if isSignal(x) {
+						signals++
+					}
+				case *ast.IfStmt:
+					// if w.waiting > 0 { w.wait.Signal() }
+					if x.Init == nil && x.Else == nil && len(x.Body.List) == 1 && isSignal(x.Body.List[0]) {
+						if be, ok := x.Cond.(*ast.BinaryExpr); ok && be.Op == token.GTR {
+							if s, ok := be.X.(*ast.SelectorExpr); ok && s.Sel.Name == "waiting" {
+								if id, ok := s.X.(*ast.Ident); ok && id.Name == arecv {
+									if lit, ok := be.Y.(*ast.BasicLit); ok && lit.Value == "0" {
+										guarded++
+									}
+								}
+							}
+						}
+					}
+				}
+				return true
+			})
+			if signals != 1 || guarded != 1 {
+				g.fail("par: Work.Add no longer has exactly one `if %s.waiting > 0 { %s.wait.Signal() }` (Signal calls: %d, of that form: %d): the wake-up of one waiting runner per queued item is what C09_wakeup_per_item rests on", arecv, arecv, signals, guarded)
+			} else {
+				fmt.Fprintf(&g.buf, "(* par.Work.Add: `if %s.waiting > 0 { %s.wait.Signal() }` for every newly queued item, and no other Signal *)\nDefinition work_add_signals_when_waiting : bool := true.\n\n", arecv, arecv)
+			}
+		}
+
 		// ---- Cache
+		if cdo := g.funcDecl("par", "Cache.Do"); cdo != nil && cdo.Body != nil {
+			defers := 0
+			ast.Inspect(cdo.Body, func(nd ast.Node) bool {
+				if _, ok := nd.(*ast.DeferStmt); ok {
+					defers++
+				}
+				return true
+			})
+			fmt.Fprintf(&g.buf, "(* par.Cache.Do: number of defer statements (with none, an f that panics or calls runtime.Goexit leaves e.mu locked and e.done unset) *)\nDefinition cache_do_deferred : nat := %d.\n\n", defers)
+		} else {
+			g.fail("par: Cache.Do not found")
+		}
 		var stores, tests []string
 		collect := func(name string) {
 			fd := g.funcDecl("par", name)
